@@ -24,16 +24,25 @@ Theorem C17_reject_points_into_fault :
 Proof. exact reject_points_into_fault. Qed.
 Print Assumptions C17_reject_points_into_fault.
 
-(* the full property fails on the mirror of the pinned tree: witnesses *)
-Theorem C17_reversed_range_refuted :
-  analyze spec_reversed_range = [] /\ well_formed spec_reversed_range = false.
-Proof. exact reversed_range_refuted. Qed.
-Print Assumptions C17_reversed_range_refuted.
-Theorem C17_unused_macro_cycle_refuted :
-  analyze spec_unused_cycle = [] /\ well_formed spec_unused_cycle = false.
-Proof. exact unused_macro_cycle_refuted. Qed.
-Print Assumptions C17_unused_macro_cycle_refuted.
-Theorem C17_empty_alias_refuted :
-  analyze spec_empty_alias = [] /\ well_formed spec_empty_alias = false.
-Proof. exact empty_alias_refuted. Qed.
-Print Assumptions C17_empty_alias_refuted.
+(* three clauses of the property were not enforced by the pinned tree; after the
+   fix: commits the mirror rejects those specifications with the right diagnostic *)
+Theorem C17_reversed_range_rejected :
+  analyze spec_reversed_range = [(KBadRange, Some 1)] /\ well_formed spec_reversed_range = false.
+Proof. exact reversed_range_rejected. Qed.
+Print Assumptions C17_reversed_range_rejected.
+Theorem C17_unused_macro_cycle_rejected :
+  analyze spec_unused_cycle = [(KMacroCycle, Some 2)] /\ well_formed spec_unused_cycle = false.
+Proof. exact unused_macro_cycle_rejected. Qed.
+Print Assumptions C17_unused_macro_cycle_rejected.
+Theorem C17_empty_alias_rejected :
+  analyze spec_empty_alias = [(KEmptyLiteral, Some 2)] /\ well_formed spec_empty_alias = false.
+Proof. exact empty_alias_rejected. Qed.
+Print Assumptions C17_empty_alias_rejected.
+
+(* what remains: lox accepts exactly the well-formed specifications as soon as
+   parser rule names have the documented shape (a name such as a__b is accepted
+   although it can never be bound to an action) *)
+Theorem C17_analyze_rejects_iff_modulo_rule_names :
+  forall s, wf_rule_names s = true -> (analyze s = [] <-> well_formed s = true).
+Proof. exact analyze_rejects_iff_modulo_rule_names. Qed.
+Print Assumptions C17_analyze_rejects_iff_modulo_rule_names.
